@@ -63,6 +63,12 @@ class SymReal(object):
     def __init__(self, t):
         self.t = t
 
+    def __deepcopy__(self, memo):
+        return self
+
+    def __copy__(self):
+        return self
+
     # -- arithmetic
     def _bin(self, other, f, swap=False):
         o = lift(other)
@@ -153,6 +159,12 @@ class SymBool(object):
 
     def __init__(self, t):
         self.t = t
+
+    def __deepcopy__(self, memo):
+        return self
+
+    def __copy__(self):
+        return self
 
     def __bool__(self):
         return decide(self.t)
